@@ -691,7 +691,7 @@ class Gen13(Gen):
     def stmt_size(self, fn, ind, depth, out, in_loop, in_with):
         ch = self.ch
         ls = self.vars_of(fn, 'L')
-        opts = [(3, 'range-list'), (2, 'product')]
+        opts = [(3, 'range-list'), (2, 'product'), (2, 'empty-fill')]
         if ls:
             opts += [(4, 'slice'), (2, 'len-use'), (2, 'zip-link')]
         if depth > 0:
@@ -720,6 +720,14 @@ class Gen13(Gen):
                 else:
                     out.append(f'{ind}{v} = [{i} for {i} in range({a} + {b})]')
                     n = a + b
+            self.bind(fn, v, 'L', n)
+        elif k == 'empty-fill':
+            v = fn.fresh('es')
+            n = ch.int(0, 3)
+            out.append(f'{ind}{v} = fp.empty({n})')
+            i = fn.fresh('i')
+            out.append(f'{ind}for {i} in range({n}):')
+            out.append(f'{ind}    {v}[{i}] = {self.small_R(fn)}')
             self.bind(fn, v, 'L', n)
         elif k == 'product':
             v = self.pick_name(fn, 'L', 'ps')
@@ -1194,6 +1202,12 @@ def main(a0: list[list[fp.Real]], a1: list[fp.Real]) -> fp.Real:
     leaf = inner[0]
     return r[0] + b[0] + leaf[0] + cp[0]
 ''', [('main', [('a0', 'LL'), ('a1', 'L')], {'a0': 1, 'a1': 1}, {'a0': 1})]),
+    ('untyped-destructuring-crashes-partial-eval', '''
+@fp.fpy
+def main(a0: fp.Real) -> fp.Real:
+    a, b = [{k0}, {k0}]
+    return a + b + a0
+''', [('main', [('a0', 'R')], {}, {})]),
     ('frontend-accepts-defuse-crash', '''
 @fp.fpy
 def main(a0: fp.Real) -> fp.Real:
